@@ -107,6 +107,7 @@ func c17Retry(run *Run, j *histJob) {
 	type end struct{ kind, detail string }
 	ends := map[int]end{}
 	var newT = map[int]int64{}
+	globalAt := -1 // the attempt that the global time-out ended
 	for _, x := range r.Rec {
 		switch x.Kind {
 		case "down.hdr":
@@ -117,6 +118,13 @@ func c17Retry(run *Run, j *histJob) {
 			res, host := x.Aux[:at], x.Aux[at+1:]
 			if started {
 				run.Fail("C17:retry-after-response-started", "an upstream attempt was made after the reply had started", replay)
+			}
+			if globalAt >= 0 {
+				sig, what := "C17:attempt-after-global-timeout", fmt.Sprintf("attempt %d was started after the global time-out (%d ms) had ended attempt %d", x.K, gms, globalAt)
+				if x.K == globalAt+1 {
+					sig, what = "C17:global-timeout-retried", fmt.Sprintf("attempt %d was ended by the global time-out (%d ms after the first attempt; no per-try timer could have fired), yet attempt %d followed: the global time-out ends the request with the 504 local reply, it is no retry condition", globalAt, gms, x.K)
+				}
+				run.Fail(sig, what, replay)
 			}
 			if x.K > 0 {
 				if host == lastHost && sp.NHosts >= 2 {
@@ -152,6 +160,22 @@ func c17Retry(run *Run, j *histJob) {
 					// guessed from timing, so the finder does not judge it; the model comparison covers these histories
 					allowed = true
 				}
+				if !allowed && e.kind == "reset" && x.K >= 2 {
+					// was the attempt BEFORE the reset one answered with a retriable status?  then the decision for the reset
+					// looks like the decision for that earlier response
+					if p, okp := ends[x.K-2]; okp && p.kind == "resp" {
+						var code int
+						fmt.Sscanf(p.detail, "%d", &code)
+						stale := sp.RetryOn && code >= 500
+						for _, c := range sp.StatusCodes {
+							stale = stale || (sp.RetryOn && c == code)
+						}
+						if stale {
+							run.Fail("C17:retry-decision-uses-stale-status", fmt.Sprintf("attempt %d ended with a reset (%s) that is no configured retry condition, yet attempt %d followed; attempt %d had been answered %d (retriable): the decision for attempt %d was taken on the status of attempt %d", x.K-1, e.detail, x.K, x.K-2, code, x.K-1, x.K-2), replay)
+							allowed = true
+						}
+					}
+				}
 				if !allowed {
 					run.Fail("C17:retry-without-condition", fmt.Sprintf("attempt %d followed attempt %d which ended with %s %s (retry_on=%v codes=%v)", x.K, x.K-1, e.kind, e.detail, sp.RetryOn, sp.StatusCodes), replay)
 				}
@@ -173,16 +197,25 @@ func c17Retry(run *Run, j *histJob) {
 		case "up.reset":
 			// a proxy-side reset of the current attempt with no environment event: a timer
 			if _, seen := ends[x.K]; !seen {
+				kind := "other"
+				perTryWindow := false
 				if t0, ok := newT[x.K]; ok && tms > 0 && gms > 0 {
 					dt := int((x.T - t0) / 1000)
-					if dt >= tms-tmoTol && dt <= tms+tmoTol {
-						ends[x.K] = end{"pertry", ""}
-					} else {
-						ends[x.K] = end{"other", ""}
+					perTryWindow = dt >= tms-tmoTol && dt <= tms+tmoTol
+					if perTryWindow {
+						kind = "pertry"
 					}
-				} else {
-					ends[x.K] = end{"other", ""}
 				}
+				// the global timer is armed when the first attempt has been sent; a proxy-side reset at that distance which no
+				// per-try timer explains is the global time-out
+				if tf, ok := newT[0]; ok && !perTryWindow && gms > 0 && !started {
+					dg := int((x.T - tf) / 1000)
+					if dg >= gms-tmoTol && dg <= gms+tmoTol {
+						kind = "global"
+						globalAt = x.K
+					}
+				}
+				ends[x.K] = end{kind, ""}
 			}
 		}
 	}
@@ -191,7 +224,7 @@ func c17Retry(run *Run, j *histJob) {
 func c17(args []string) int {
 	run := NewRun("C17", args)
 	r := run.R
-	run.Sum.Rule = "(a) time-out sources: each of {route, header, variable} x {global, per-try} absent / a distinct value from {80,120,160,200} ms / (headers) unparsable, upstream silent: effective values measured from the 504 reply and the first per-try reset; all 3^2 presence patterns x value assignments sampled. (b) retry policy: per-attempt outcome sequences over {2xx, 4xx, 5xx, listed code, connect failure, overflow, reset reasons, per-try/global expiry} x retry_on x num_retries 0..5 x status lists x 1..3 hosts. Non-trivial: (a) at least two sources present, (b) at least one failed attempt; distinct by description."
+	run.Sum.Rule = "(a) time-out sources: each of {route, header, variable} x {global, per-try} absent / a distinct value from {80,120,160,200} ms / (headers) unparsable, upstream silent: effective values measured from the 504 reply and the first per-try reset; all 3^2 presence patterns x value assignments sampled. (b) retry policy: per-attempt outcome sequences over {2xx, 4xx, 5xx, listed code, connect failure, overflow, reset reasons, per-try/global expiry} x retry_on x num_retries 0..5 x status lists x 1..3 hosts x upstream flavour (status read from the response headers, as bolt; or from the x-mosn-status variable of the request context through the real protocol.GetStatusCodeMapping, as HTTP/1.1 and HTTP/2), plus the sequences [retriable status -> retried, then silence until the global time-out / reset with each reason / per-try time-out / connect failure / overflow / non-retriable status] for both flavours. Non-trivial: (a) at least two sources present, (b) at least one failed attempt; distinct by description."
 	// ---------------- (a) time-outs
 	vals := []int{80, 120, 160, 200}
 	var ts []*tmoSpec
@@ -298,6 +331,9 @@ func c17(args []string) int {
 		if r.Intn(3) == 0 {
 			sp.RouteTryMs = slot + 15
 		}
+		if r.Intn(2) == 0 {
+			sp.Flavour = "http" // the status travels through the context variable (HTTP/1.1, HTTP/2 upstreams)
+		}
 		if r.Intn(4) == 0 {
 			sp.StatusCodes = [][]int{{503}, {404, 503}, {500}}[r.Intn(3)]
 		}
@@ -342,6 +378,48 @@ func c17(args []string) int {
 		}
 		specs = append(specs, sp)
 		specs = append(specs, &Spec{Route: "forward", NHosts: 2, RouteGlobalMs: 900, RouteTryMs: 40, RetryOn: true, NumRetries: nr, RouteHeaderActions: true})
+	}
+	// sequences [retriable status -> retried, then X] for both upstream flavours: X = silence until the global time-out / a reset
+	// with each reason / a per-try time-out / a connect failure / overflow / a non-retriable status; and the global time-out of
+	// the first attempt, of an attempt after a connect failure
+	for _, fl := range []string{"", "http"} {
+		for _, codes := range [][]int{nil, {503}} {
+			base := func() *Spec {
+				return &Spec{Flavour: fl, Route: "forward", NHosts: 2, RouteGlobalMs: 4 * slot, RetryOn: true, NumRetries: 3, StatusCodes: codes,
+					Events: []Event{{AtMs: slot, Kind: "upresp", K: 0, Status: 503}}}
+			}
+			sp := base() // silence until the global time-out; a late answer for a third attempt, should there be one
+			sp.Events = append(sp.Events, Event{AtMs: 5*slot + 10, Kind: "upresp", K: 2, Status: 200})
+			specs = append(specs, sp)
+			sp = base()
+			sp.HasData = true
+			specs = append(specs, sp)
+			for _, why := range []string{"remotereset", "localreset", "termination", "connfailed", "overflow", "upstreamreset"} {
+				sp = base()
+				sp.Events = append(sp.Events, Event{AtMs: 2 * slot, Kind: "upreset", K: 1, Reason: why}, Event{AtMs: 3 * slot, Kind: "upresp", K: 2, Status: 200})
+				specs = append(specs, sp)
+			}
+			sp = base()
+			sp.RouteTryMs = slot + 10
+			sp.RouteGlobalMs = 6 * slot
+			sp.Events = append(sp.Events, Event{AtMs: 4 * slot, Kind: "upresp", K: 2, Status: 200})
+			specs = append(specs, sp)
+			sp = base()
+			sp.Pool = []string{"ok", "connfail"}
+			specs = append(specs, sp)
+			sp = base()
+			sp.Pool = []string{"ok", "overflow"}
+			specs = append(specs, sp)
+			sp = base()
+			sp.Events = append(sp.Events, Event{AtMs: 2 * slot, Kind: "upresp", K: 1, Status: 404})
+			specs = append(specs, sp)
+			sp = base()
+			sp.Events = []Event{{AtMs: slot, Kind: "upresp", K: 0, Status: 500}, {AtMs: 2 * slot, Kind: "upresp", K: 1, Status: 503}, {AtMs: 3 * slot, Kind: "upreset", K: 2, Reason: "remotereset"}}
+			specs = append(specs, sp)
+			// first attempt / attempt after a connect failure ended by the global time-out
+			specs = append(specs, &Spec{Flavour: fl, Route: "forward", NHosts: 2, RouteGlobalMs: 2 * slot, RetryOn: true, NumRetries: 3, StatusCodes: codes},
+				&Spec{Flavour: fl, Route: "forward", NHosts: 2, RouteGlobalMs: 2 * slot, RetryOn: true, NumRetries: 3, StatusCodes: codes, Pool: []string{"connfail"}})
+		}
 	}
 	jobs := make([]*histJob, len(specs))
 	for i, sp := range specs {
